@@ -82,8 +82,259 @@ Section Unm.
   Qed.
 
   Lemma toks_nonempty v : exists t r, toks v = t :: r.
-  Proof. destruct v; try (eexists; eexists; reflexivity). - rewrite toks_list; eauto. - rewrite toks_map; eauto. Qed.
+  Proof. destruct v; eexists; eexists; reflexivity. Qed.
 
   Lemma ents_cons k x m : ents ((k, x) :: m) = TString k :: toks x ++ ents m.
   Proof. reflexivity. Qed.
+
+  (* ---------------------------------------------------------------- the look-ahead on a map that
+     is none of the reserved shapes: both look-aheads say "no", the window stays well-formed and
+     holds at most the map's own tokens *)
+
+  Definition val_safe := json_safe cid_ok.
+
+  Lemma slash_eq k : bytes_eqb k slash = true -> k = slash.
+  Proof. apply bytes_eqb_eq. Qed.
+
+  Ltac la_leaf :=
+    eexists; eexists; split; [reflexivity|split; [reflexivity|split; [reflexivity|cbn [length app]; lia]]].
+
+  Lemma lookahead_none m R n :
+    reserved_shape m = false ->
+    winI (TMapOpen :: firstn n (ents m ++ TMapClose :: R)) = true ->
+    exists n1 n2,
+      alink cid_parse (n, ents m ++ TMapClose :: R) = Ok (None, (n1, ents m ++ TMapClose :: R)) /\
+      abytes (n1, ents m ++ TMapClose :: R) = Ok (None, (n2, ents m ++ TMapClose :: R)) /\
+      winI (firstn n2 (ents m ++ TMapClose :: R)) = true /\
+      (n <= n2 /\ (n2 = n \/ n2 <= length (ents m) + 1))%nat.
+  Proof.
+    intros NR W.
+    destruct m as [|[k x] m'].
+    { (* empty map *)
+      cbn [ents flat_map app] in *. destruct n as [|n].
+      - la_leaf.
+      - exists (S n), (S n). cbn [firstn winI] in W. repeat split; try reflexivity; try lia.
+        cbn [firstn]. exact W. }
+    rewrite ents_cons in *. cbn [app] in *.
+    destruct (bytes_eqb k slash) eqn:Hk.
+    2:{ (* first key is not "/" *)
+      destruct n as [|n].
+      - exists 1%nat, 1%nat. unfold alink, abytes, apeek. cbn [fst snd nth_error pred Nat.ltb Nat.leb Nat.eqb bind].
+        rewrite Hk. cbn [negb bind]. repeat split; try reflexivity; try lia.
+      - exists (S n), (S n). unfold alink, abytes, apeek. cbn [fst snd nth_error pred Nat.ltb Nat.leb Nat.eqb bind].
+        rewrite Hk. cbn [negb bind]. repeat split; try reflexivity; try lia.
+        eapply winI_tl. exact W. }
+    apply slash_eq in Hk. subst k.
+    assert (Hn : (n <= 1)%nat).
+    { destruct n as [|[|n]]; try lia. exfalso. destruct (toks_nonempty x) as (t & r & Et).
+      rewrite Et in W. cbn [app firstn winI] in W. cbn in W. discriminate. }
+    Ltac fin := eexists; eexists; split; [reflexivity|split; [reflexivity|split; [reflexivity|
+                  split; [lia|right; rewrite ?app_length; cbn [length]; rewrite ?app_length; cbn [length]; lia]]]].
+    destruct x as [|b|z|f|s|bs|c|l|mm];
+      [unfold toks in W |- *; cbn [to_js jtoks flat_map fst snd app] in * ..
+      |rewrite toks_list in *; cbn [app] in *|rewrite toks_map in *; cbn [app] in *].
+    1-4: destruct n as [|[|n]]; [fin|fin|lia].
+    - (* "/" : string *)
+      destruct m' as [|[k2 y] m''].
+      { cbn in NR. discriminate. }
+      rewrite ents_cons. cbn [app]. destruct n as [|[|n]]; [fin|fin|lia].
+    - (* "/" : bytes *) destruct n as [|[|n]]; [fin|fin|lia].
+    - (* "/" : link *) destruct n as [|[|n]]; [fin|fin|lia].
+    - (* "/" : list *) destruct n as [|[|n]]; [fin|fin|lia].
+    - (* "/" : map *)
+      rewrite <- app_assoc in *. cbn [app] in *.
+      destruct mm as [|[k2 y] mm'].
+      { cbn [ents flat_map app] in *. destruct n as [|[|n]]; [fin|fin|lia]. }
+      rewrite ents_cons in *. cbn [app] in *. rewrite <- app_assoc in *.
+      destruct (bytes_eqb k2 bytes_word) eqn:Hk2.
+      2:{ destruct n as [|[|n]]; [| |lia];
+          (exists 2%nat, 3%nat; split; [reflexivity|split;
+             [unfold abytes, apeek; cbn [fst snd nth_error pred Nat.ltb Nat.leb Nat.eqb bind];
+              change (bytes_eqb slash slash) with true; cbn [negb bind fst snd nth_error pred Nat.ltb Nat.leb Nat.eqb];
+              rewrite Hk2; reflexivity
+             |split; [cbn; rewrite ?orb_true_r; reflexivity|
+               split; [lia|right; rewrite ?app_length; cbn [length]; rewrite ?app_length; cbn [length]; lia]]]]). }
+      apply bytes_eqb_eq in Hk2. subst k2.
+      destruct y as [|b|z|f|s|bs|c|l|mm2];
+        [unfold toks in W |- *; cbn [to_js jtoks flat_map fst snd app] in * ..
+        |rewrite toks_list in *; cbn [app] in *|rewrite toks_map in *; cbn [app] in *].
+      1-4,6-9: destruct n as [|[|n]]; [fin|fin|lia].
+      (* "/" : { "bytes" : string ... *)
+      destruct mm' as [|[k3 z] mm''].
+      2:{ rewrite ents_cons. cbn [app]. destruct n as [|[|n]]; [fin|fin|lia]. }
+      cbn [ents flat_map app] in *.
+      destruct m' as [|[k3 z] m''].
+      { cbn in NR. discriminate. }
+      rewrite ents_cons. cbn [app]. destruct n as [|[|n]]; [fin|fin|lia].
+  Qed.
+
+  (* ---------------------------------------------------------------- fuel, depth, keys *)
+
+  Definition lsum (l : list dm) (need : dm -> nat) : nat := fold_right (fun x a => S (need x + a)) 0%nat l.
+  Definition msum (m : list (bytes * dm)) (need : dm -> nat) : nat := fold_right (fun kv a => S (need (snd kv) + a)) 0%nat m.
+  Fixpoint need (v : dm) : nat :=
+    match v with
+    | DList l => 2 + fold_right (fun x a => S (need x + a)) 0%nat l
+    | DMap m => 2 + fold_right (fun kv a => S (need (snd kv) + a)) 0%nat m
+    | _ => 1
+    end.
+
+  Variable o : jdopts.
+  Hypothesis Olinks : jd_links o = true.
+  Hypothesis Obytes : jd_bytes o = true.
+
+  Definition depth_ok (d : Z) (v : dm) : Prop := (d + Z.of_N (jdepth v) <= jmax_depth o)%Z.
+
+  Lemma toks_head_open v t r : toks v = t :: r -> t <> TArrClose /\ t <> TMapClose.
+  Proof. destruct v; unfold toks; cbn [to_js jtoks]; intros E; inversion E; subst; split; discriminate. Qed.
+
+  Lemma aunm_list_step f d t L : t <> TArrClose ->
+    aunm_list cid_parse (S f) o d (0%nat, t :: L) =
+    (do r <- aunm cid_parse f o (d + 1) t (0%nat, L); let '(v, s2) := r in
+     do r' <- aunm_list cid_parse f o d s2; let '(l, s3) := r' in Ok (v :: l, s3)).
+  Proof. intros NC. rewrite aunm_list_S. unfold anext_direct. cbn [fst snd bind]. destruct t; congruence || reflexivity. Qed.
+
+  Lemma existsb_notin k seen : ~ In k seen -> existsb (bytes_eqb k) seen = false.
+  Proof.
+    induction seen as [|a r IH]; intros H; [reflexivity|]. cbn [existsb].
+    destruct (bytes_eqb k a) eqn:E; [apply bytes_eqb_eq in E; subst; exfalso; apply H; now left|].
+    apply IH. intros Hin. apply H. now right.
+  Qed.
+
+  Lemma existsb_false_notin k l : existsb (bytes_eqb k) l = false -> ~ In k l.
+  Proof.
+    induction l as [|a r IH]; intros H Hin; [contradiction|]. cbn [existsb] in H. apply orb_false_iff in H. destruct H as [H1 H2].
+    destruct Hin as [->|Hin]; [rewrite bytes_eqb_refl in H1; discriminate|now apply IH].
+  Qed.
+
+  Definition P (gf : N -> bool) (v : dm) : Prop :=
+    val_safe gf v = true -> forall f n R d, (need v <= f)%nat -> depth_ok d v ->
+      winI (firstn (S n) (toks v ++ R)) = true ->
+      aunm cid_parse f o d (hd TNull (toks v)) (n, tl (toks v) ++ R) = Ok (v, ((n - (length (toks v) - 1))%nat, R)).
+
+  Lemma depth_check d v : depth_ok d v -> (1 <= jdepth v) -> (jmax_depth o <=? d)%Z = false.
+  Proof. unfold depth_ok. intros. apply Z.leb_gt. lia. Qed.
+
+  Lemma U_list gf l : Forall (P gf) l -> forallb (val_safe gf) l = true ->
+    forall f R d, (S (lsum l need) <= f)%nat -> Forall (depth_ok (d + 1)) l ->
+      aunm_list cid_parse f o d (0%nat, elts l ++ TArrClose :: R) = Ok (l, (0%nat, R)).
+  Proof.
+    induction 1 as [|x r Hx Hr IH]; intros Sf f R d Hf Hd.
+    - destruct f as [|f]; [lia|]. reflexivity.
+    - cbn [forallb] in Sf. apply andb_true_iff in Sf. destruct Sf as [Sx Sr].
+      inversion Hd as [|? ? Dx Dr]; subst. cbn [lsum fold_right] in Hf. fold (lsum r need) in Hf.
+      destruct f as [|f]; [lia|].
+      destruct (toks_nonempty x) as (t & tr & Et). destruct (toks_head_open _ _ _ Et) as [NC _].
+      unfold elts. cbn [flat_map]. fold (elts r). rewrite Et. rewrite <- app_assoc. cbn [app].
+      rewrite aunm_list_step by assumption.
+      pose proof (Hx Sx f 0%nat (elts r ++ TArrClose :: R) (d + 1)%Z ltac:(lia) Dx) as Hc.
+      rewrite Et in Hc. cbn [hd tl app firstn] in Hc. rewrite (Hc (winI_single t)). cbn [bind Nat.sub].
+      rewrite IH; [reflexivity|assumption|lia|assumption].
+  Qed.
+
+  Lemma U_map gf m : Forall (fun kv => P gf (snd kv)) m ->
+    forallb (fun kv => val_safe gf (snd kv)) m = true -> NoDup (map fst m) ->
+    forall f seen n R d, (forall k, In k (map fst m) -> ~ In k seen) ->
+      (S (msum m need) <= f)%nat -> Forall (fun kv => depth_ok (d + 1) (snd kv)) m ->
+      winI (firstn n (ents m ++ TMapClose :: R)) = true ->
+      aunm_map cid_parse f o d seen (n, ents m ++ TMapClose :: R) = Ok (m, ((n - (length (ents m) + 1))%nat, R)).
+  Proof.
+    induction 1 as [|[k x] r Hx Hr IH]; intros Sf ND f seen n R d Hseen Hf Hd W.
+    - destruct f as [|f]; [lia|]. rewrite aunm_map_S. unfold anext. cbn [ents flat_map app fst snd bind length].
+      do 3 f_equal. lia.
+    - cbn [forallb snd] in Sf. apply andb_true_iff in Sf. destruct Sf as [Sx Sr].
+      inversion Hd as [|? ? Dx Dr]; subst. cbn [snd] in *.
+      cbn [map fst] in ND. inversion ND as [|? ? Nin ND']; subst.
+      cbn [msum fold_right snd] in Hf. fold (msum r need) in Hf.
+      destruct f as [|f]; [lia|].
+      destruct (toks_nonempty x) as (t & tr & Et).
+      rewrite ents_cons in *. cbn [app] in *. rewrite <- app_assoc in *. rewrite Et in *. cbn [app] in *.
+      rewrite aunm_map_S. unfold anext. cbn [fst snd bind].
+      rewrite (existsb_notin k seen) by (apply Hseen; now left).
+      cbn [bind].
+      set (R' := ents r ++ TMapClose :: R) in *.
+      set (pp := pred (pred n)).
+      assert (W' : winI (firstn (S pp) (t :: tr ++ R')) = true).
+      { destruct n as [|[|n']]; [apply winI_single|apply winI_single|]. exact W. }
+      pose proof (Hx Sx f pp R' (d + 1)%Z ltac:(lia) Dx) as Hc.
+      rewrite Et in Hc. cbn [hd tl] in Hc. rewrite (Hc W'). cbn [bind].
+      assert (Ltx : length (toks x) = S (length tr)) by (rewrite Et; reflexivity).
+      subst R'. rewrite IH; try assumption.
+      + cbn [length]. rewrite app_length. cbn [bind]. do 3 f_equal. unfold pp. lia.
+      + intros k' Hin [->|Hs]; [contradiction|]. eapply Hseen; [right; exact Hin|exact Hs].
+      + lia.
+      + replace (pp - (length (toks x) - 1))%nat with (S pp - length (toks x))%nat by lia.
+        set (R' := ents r ++ TMapClose :: R) in *.
+        assert (E : R' = skipn (length (toks x)) ((t :: tr) ++ R')).
+        { rewrite <- Et. now rewrite skipn_app, skipn_all, Nat.sub_diag. }
+        rewrite E at 1. Show. rewrite firstn_skipn_comm. apply winI_skipn. exact W'.
+  Qed.
+
+  Lemma nodup_keys_NoDup {V} (m : list (bytes * V)) : nodup_keys m = true -> NoDup (map fst m).
+  Proof.
+    induction m as [|[k x] r IH]; intros H; [constructor|]. cbn [nodup_keys] in H.
+    apply andb_true_iff in H. destruct H as [H1 H2]. cbn [map fst]. constructor; [|auto].
+    apply existsb_false_notin. now apply negb_true_iff.
+  Qed.
+
+  Lemma fold_max_le (A : Type) (g : A -> N) (l : list A) x : In x l -> g x <= fold_right (fun y a => N.max (g y) a) 0 l.
+  Proof. induction l as [|y r IH]; intros [->|H]; cbn [fold_right]; [lia|specialize (IH H); lia]. Qed.
+
+  (* the look-ahead part of C04, together with the structural recursion *)
+  Theorem U gf v : P gf v.
+  Proof.
+    induction v as [|b|z|x|s|bs|c|l IH|m IH] using dm_ind2; intros Sf f n R d Hf Hd W;
+      try (destruct f as [|f]; [cbn in Hf; lia|]; cbn [toks to_js jtoks hd tl app length];
+           rewrite aunm_S; unfold toks; cbn [to_js jtoks hd tl app length]; do 3 f_equal; lia).
+    - (* bytes *)
+      destruct f as [|f]; [cbn in Hf; lia|]. unfold toks in *. cbn [to_js jtoks flat_map fst snd app hd tl length] in *.
+      assert (Hn : (n <= 1)%nat) by (destruct n as [|[|n]]; try lia; cbn in W; discriminate).
+      rewrite aunm_S, (depth_check d (DBytes bs) Hd) by (cbn; lia). rewrite Olinks, Obytes.
+      cbn [val_safe json_safe] in Sf. unfold bytes_ok, byte_ok in Sf.
+      assert (B : b64_decode_go (b64_encode bs) = Some bs).
+      { apply base64_roundtrip. apply Forall_forall. intros y Hy. rewrite forallb_forall in Sf.
+        specialize (Sf y Hy). now apply N.ltb_lt. }
+      destruct n as [|[|n]]; [| |lia];
+        (unfold alink, abytes, apeek; cbn [fst snd nth_error pred Nat.ltb Nat.leb Nat.eqb bind];
+         change (bytes_eqb slash slash) with true; change (bytes_eqb bytes_word bytes_word) with true;
+         cbn [negb bind fst snd nth_error pred Nat.ltb Nat.leb Nat.eqb]; rewrite B; reflexivity).
+    - (* link *)
+      destruct f as [|f]; [cbn in Hf; lia|]. unfold toks in *. cbn [to_js jtoks flat_map fst snd app hd tl length] in *.
+      assert (Hn : (n <= 1)%nat) by (destruct n as [|[|n]]; try lia; cbn in W; discriminate).
+      rewrite aunm_S, (depth_check d (DLink c) Hd) by (cbn; lia). rewrite Olinks.
+      cbn [val_safe json_safe] in Sf.
+      destruct n as [|[|n]]; [| |lia];
+        (unfold alink, apeek; cbn [fst snd nth_error pred Nat.ltb Nat.leb Nat.eqb bind];
+         change (bytes_eqb slash slash) with true;
+         cbn [negb bind fst snd nth_error pred Nat.ltb Nat.leb Nat.eqb]; rewrite (CID c Sf); reflexivity).
+    - (* list *)
+      destruct f as [|f]; [cbn in Hf; lia|]. rewrite toks_list in *. cbn [hd tl app] in *.
+      rewrite <- app_assoc in *. cbn [app] in *.
+      assert (n = 0)%nat as ->.
+      { destruct n as [|n]; [reflexivity|]. cbn [firstn winI] in W.
+        destruct (elts l ++ TArrClose :: R) eqn:E; [destruct (elts l); discriminate|]. discriminate. }
+      rewrite aunm_S, (depth_check d (DList l) Hd) by (cbn [jdepth]; lia).
+      cbn [val_safe json_safe] in Sf. cbn [need] in Hf.
+      rewrite (U_list gf l IH Sf f R d).
+      + cbn [bind Nat.sub]. reflexivity.
+      + unfold lsum. lia.
+      + apply Forall_forall. intros y Hy. unfold depth_ok in *. cbn [jdepth] in Hd.
+        pose proof (fold_max_le dm jdepth l y Hy). lia.
+    - (* map *)
+      destruct f as [|f]; [cbn in Hf; lia|]. rewrite toks_map in *. cbn [hd tl app] in *.
+      rewrite <- app_assoc in *. cbn [app] in *.
+      cbn [val_safe json_safe] in Sf. apply andb_true_iff in Sf. destruct Sf as [Sf S3].
+      apply andb_true_iff in Sf. destruct Sf as [S1 S2]. apply negb_true_iff in S2.
+      destruct (lookahead_none m R n S2 W) as (n1 & n2 & A1 & A2 & W2 & Hle & Hn2).
+      rewrite aunm_S, (depth_check d (DMap m) Hd) by (cbn [jdepth]; lia). rewrite Olinks, Obytes.
+      rewrite A1. cbn [bind]. rewrite A2. cbn [bind]. cbn [need] in Hf.
+      rewrite (U_map gf m IH) with (d := d); try assumption.
+      + cbn [bind]. rewrite app_length. cbn [length]. do 3 f_equal. lia.
+      + rewrite forallb_forall in *. intros kv Hkv. specialize (S3 kv Hkv). apply andb_true_iff in S3. tauto.
+      + now apply nodup_keys_NoDup.
+      + intros k _ [].
+      + unfold msum. lia.
+      + apply Forall_forall. intros kv Hkv. unfold depth_ok in *. cbn [jdepth] in Hd.
+        pose proof (fold_max_le _ (fun kv => jdepth (snd kv)) m kv Hkv) as Hm. cbn beta in Hm. lia.
+  Qed.
 End Unm.
